@@ -3,8 +3,9 @@
 
    Vocabulary (WriteSM.v): [step_gen phys fixed opt st oc = (st', r)] is one
    (re)build of a context with options [opt] from state [st] (disk, hash table)
-   when scan+link produced [oc]; [fixed = false] ([step]) is the pinned code,
-   [fixed = true] the candidate repair; [phys] resolves a path to the file it
+   when scan+link produced [oc]; [fixed = true] ([step]) is the current code
+   (after /repo commit d19e8cb), [fixed = false] ([step_before_fix]) the code
+   before that repair; [phys] resolves a path to the file it
    denotes ([phys_id]: no symbolic links); [r_failed_early r]: the log has
    errors when the write phase starts (scan, link, overwrite/duplicate checks,
    cancellation); [r_errors r]: the build reports errors (also on-end errors). *)
@@ -63,17 +64,35 @@ Theorem failed_build_writes_nothing :
 Proof. exact failed_step_shape. Qed.
 Print Assumptions failed_build_writes_nothing.
 
-(* REFUTED on the faithful model (DESIGN §7-F, replayed on the real code):
-   a rebuild that fails removes the outputs of the previous build *)
-Theorem failed_build_deletes_nothing_refuted :
+(* a build that has errors when the write phase starts changes nothing at all:
+   not the disk, not the context's hash table (restored in full by d19e8cb) *)
+Theorem failed_build_deletes_nothing :
+  forall phys opt st oc st' r,
+    step phys opt st oc = (st', r) -> r_failed_early r = true -> st' = st /\ r_effects r = [].
+Proof. exact fixed_failed_step_is_identity. Qed.
+Print Assumptions failed_build_deletes_nothing.
+
+(* ... and so do a build with writing disabled and a build in stdout mode, as far as the disk goes *)
+Theorem failed_or_nonwriting_build_leaves_disk_unchanged :
+  forall phys opt st oc st' r,
+    step phys opt st oc = (st', r) ->
+    r_failed_early r = true \/ write opt = false \/ to_stdout opt = true ->
+    disk st' = disk st /\ r_effects r = [].
+Proof. exact nonwriting_step_disk_unchanged. Qed.
+Print Assumptions failed_or_nonwriting_build_leaves_disk_unchanged.
+
+(* what d19e8cb repaired (DESIGN §7-F, reproduced on the code before the
+   commit and again by reverting it): a rebuild that failed removed the
+   outputs of the previous build *)
+Theorem before_fix_failed_build_deleted_files :
   exists opt d0 oc1 oc2,
-    let st1 := fst (step phys_id opt (init d0) oc1) in
-    let st2 := fst (step phys_id opt st1 oc2) in
-    let r2 := snd (step phys_id opt st1 oc2) in
+    let st1 := fst (step_before_fix phys_id opt (init d0) oc1) in
+    let st2 := fst (step_before_fix phys_id opt st1 oc2) in
+    let r2 := snd (step_before_fix phys_id opt st1 oc2) in
     r_failed_early r2 = true /\
     exists p, lookup (disk st1) p <> None /\ lookup (disk st2) p = None.
-Proof. exact failed_build_deletes_nothing_refuted_w. Qed.
-Print Assumptions failed_build_deletes_nothing_refuted.
+Proof. exact before_fix_failed_build_deleted_files_w. Qed.
+Print Assumptions before_fix_failed_build_deleted_files.
 
 (* REFUTED (by design upstream): "a build that reports errors creates no
    file" - on-end callbacks run after the write phase *)
@@ -84,13 +103,6 @@ Theorem reported_errors_write_nothing_refuted :
     r_errors r1 = true /\ exists p, lookup d0 p = None /\ lookup (disk st1) p <> None.
 Proof. exact reported_errors_write_nothing_refuted_w. Qed.
 Print Assumptions reported_errors_write_nothing_refuted.
-
-(* the candidate repair: a failed build is the identity on (disk, hash table) *)
-Theorem fixed_failed_build_changes_nothing :
-  forall phys opt st oc st' r,
-    step_fixed phys opt st oc = (st', r) -> r_failed_early r = true -> st' = st /\ r_effects r = [].
-Proof. exact fixed_failed_step_is_identity. Qed.
-Print Assumptions fixed_failed_build_changes_nothing.
 
 (* ---- inputs ---- *)
 
@@ -113,18 +125,27 @@ Theorem no_input_overwritten_disk_partial :
 Proof. exact input_safe_or_deleted. Qed.
 Print Assumptions no_input_overwritten_disk_partial.
 
-(* REFUTED (DESIGN §7-F): a failing rebuild deletes one of its inputs *)
-Theorem no_input_deleted_refuted :
+(* a failed build neither overwrites nor deletes any file, inputs included *)
+Theorem no_input_deleted_by_failed_build :
+  forall phys opt st oc st' r q,
+    step phys opt st oc = (st', r) -> r_failed_early r = true -> lookup (disk st') q = lookup (disk st) q.
+Proof. exact failed_step_keeps_files. Qed.
+Print Assumptions no_input_deleted_by_failed_build.
+
+(* before d19e8cb a failing rebuild deleted one of its inputs *)
+Theorem before_fix_failed_build_deleted_input :
   exists opt d0 oc1 oc2,
-    let st1 := fst (step phys_id opt (init d0) oc1) in
-    let st2 := fst (step phys_id opt st1 oc2) in
+    let st1 := fst (step_before_fix phys_id opt (init d0) oc1) in
+    let st2 := fst (step_before_fix phys_id opt st1 oc2) in
+    r_failed_early (snd (step_before_fix phys_id opt st1 oc2)) = true /\
     effective_allow opt = false /\
     exists p, In p (inputs oc2) /\ lookup (disk st1) p <> None /\ lookup (disk st2) p = None.
-Proof. exact no_input_deleted_refuted_w. Qed.
-Print Assumptions no_input_deleted_refuted.
+Proof. exact before_fix_failed_build_deleted_input_w. Qed.
+Print Assumptions before_fix_failed_build_deleted_input.
 
-(* REFUTED, also for the repaired step: a successful rebuild deletes a stale
-   output of the previous build that is an input of the current one *)
+(* REFUTED ("never deletes a file that was one of its inputs"), before and
+   after d19e8cb: a SUCCESSFUL rebuild deletes a stale output of the previous
+   build that is an input of the current one (replayed on the real code) *)
 Theorem no_input_deleted_by_successful_rebuild_refuted :
   forall fixed, exists opt d0 oc1 oc2,
     let st1 := fst (step_gen phys_id fixed opt (init d0) oc1) in
@@ -197,20 +218,20 @@ Theorem step_meets_spec :
 Proof. exact step_meets_spec_all. Qed.
 Print Assumptions step_meets_spec.
 
-(* the strong reading "a failed build leaves the tree unchanged": false of the
-   pinned step, true of the repaired step *)
-Theorem spec_failed_unchanged_refuted :
-  exists opt st oc own,
-    let st' := fst (step phys_id opt st oc) in
-    let r := snd (step phys_id opt st oc) in
-    to_stdout opt = false /\ (forall p, In p (keys (latest st)) -> In p own) /\
-    ~ spec_failed_unchanged (obs_of opt st st' oc r own).
-Proof. exact spec_failed_unchanged_refuted_w. Qed.
-Print Assumptions spec_failed_unchanged_refuted.
-
-Theorem fixed_step_meets_spec_failed_unchanged :
+(* the strong reading "a failed or non-writing build leaves the tree unchanged":
+   true of the current step, false before d19e8cb *)
+Theorem step_meets_spec_failed_unchanged :
   forall opt st st' oc r own,
-    step_fixed phys_id opt st oc = (st', r) -> to_stdout opt = false ->
+    step phys_id opt st oc = (st', r) -> to_stdout opt = false ->
     spec_failed_unchanged (obs_of opt st st' oc r own).
 Proof. exact fixed_meets_failed_unchanged. Qed.
-Print Assumptions fixed_step_meets_spec_failed_unchanged.
+Print Assumptions step_meets_spec_failed_unchanged.
+
+Theorem before_fix_spec_failed_unchanged_refuted :
+  exists opt st oc own,
+    let st' := fst (step_before_fix phys_id opt st oc) in
+    let r := snd (step_before_fix phys_id opt st oc) in
+    to_stdout opt = false /\ (forall p, In p (keys (latest st)) -> In p own) /\
+    ~ spec_failed_unchanged (obs_of opt st st' oc r own).
+Proof. exact before_fix_spec_failed_unchanged_refuted_w. Qed.
+Print Assumptions before_fix_spec_failed_unchanged_refuted.
